@@ -352,6 +352,8 @@ def random_cfg(rng, alg=None, family="roomy", nobs=None, maxn=4):
                     extra.append({"o": o["o"], "k": n["k"], "x": rng.choice([1, 1, 2])})
     if rng.random() < 0.2:
         cfg["decoy"] = rng.randint(1, 4)      # another simulation paused mid-run in the same process
+    if rng.random() < 0.25:
+        cfg["fracRate"] = True               # data rates spelled with a fraction in the file
     cfg["extra"] = extra
     if alg == "adv":
         cfg["advRounds"] = rng.randint(1, 4)
